@@ -81,6 +81,18 @@ def NoTheft (c : Cat) (p sn : String) (is : List Inst) : Prop :=
 instance (c : Cat) (p : String) (is : List Inst) : Decidable (Fresh c p is) := by unfold Fresh; infer_instance
 instance (c : Cat) (p sn : String) (is : List Inst) : Decidable (NoTheft c p sn is) := by unfold NoTheft; infer_instance
 
+/-- A stored node of the peer with the name of a received node has no UUID or the received one (otherwise
+    `ensureNoNodeWithSimilarNameTxn` may refuse the registration: "node name is reserved"). -/
+def NoClash (c : Cat) (p : String) (is : List Inst) : Prop :=
+  ∀ i ∈ is, i.node.id ≠ "" → ∀ e ∈ c.nodes, e.peer = p → e.name = i.node.name → e.id = "" ∨ e.id = i.node.id
+
+/-- every stored instance of `(p, sn)` has its node row, so that `CheckServiceNodes` can be read -/
+def Readable (c : Cat) (p sn : String) : Prop :=
+  ∀ s ∈ c.svcs, s.peer = p → s.name = sn → ∃ n ∈ c.nodes, n.peer = p ∧ n.name = s.node
+
+instance (c : Cat) (p : String) (is : List Inst) : Decidable (NoClash c p is) := by unfold NoClash; infer_instance
+instance (c : Cat) (p sn : String) : Decidable (Readable c p sn) := by unfold Readable; infer_instance
+
 /-! ### hypotheses about stale checks -/
 
 /-- the peer has an instance of `sn` stored under this (node, service id) -/
